@@ -36,12 +36,7 @@ def expFields (e : Exponent Secp.Pt) : List (String × Json) :=
 def goVerify (X R : Secp.Pt) (s : Nat) (h : Bytes) : Bool :=
   ecdsaVerify O X R (fromHash h) (xScalar R) s
 
-/-- the Go `Derive` preamble shared by cmp / frost: which chain key the result carries (`none` = error) -/
-def deriveChain (old new : Option Bytes) : Option Bytes :=
-  let nc := match new with
-    | some b => if b.length = 0 then old.getD [] else b
-    | none => old.getD []
-  if nc.length ≠ 32 then none else some nc
+def deriveChain := deriveChainRule
 
 def bip32Json (pub : Secp.Pt) (chain : Bytes) (i : Nat) : Json :=
   match bip32DeriveScalar pub chain i with
@@ -170,14 +165,17 @@ def handle (op : String) (inp : Json) : Json :=
       match deriveChain (some chain) newChain with
       | none => jobj [("err", true)]
       | some ck =>
-        let dR := doernerDerive O cR a ck
-        let dS := doernerDerive O cS a ck
-        -- `valid` is what the PROPERTY prescribes of a derivation (C14): the derived shares are a sharing of
-        -- the derived key and both configs carry the (same, 32-byte) chain key. The model of the code's
-        -- arithmetic is in the other fields; a disagreement on `valid` is a failing input of C14.
+        let dR := doernerDeriveReceiver O cR a ck
+        let dS := doernerDeriveSender O cS a ck
+        -- `valid` is the property-level judgement (C14): the derived additive shares open the derived key —
+        -- which must be the prescribed child key parent + a·G — and both configs carry the same 32-byte chain
+        -- key. It is evaluated on the model's values (theorem `doerner_derive_is_sharing` says: always true).
+        let valid := O.smul (O.add dR.secretShare dS.secretShare) O.base == dR.pub && dR.pub == dS.pub
+          && dR.pub == derivePublic O pk a && dR.chainKey == some ck && dS.chainKey == some ck && ck.length == 32
         jobj [("err", false), ("shareR", scHex dR.secretShare), ("shareS", scHex dS.secretShare),
           ("pkR", ptHex dR.pub), ("pkS", ptHex dS.pub), ("chainR", chainJson dR.chainKey), ("chainS", chainJson dS.chainKey),
-          ("valid", true)]
+          ("valid", valid)]
+  | "chainKeyXor" => jobj [("chain", toHex (chainKeyOf (jids inp "contribs")))]
   -- suite `algfind` (session-level reproducers): the model answers what property C14 / C08 PRESCRIBE of a real run
   | "findFrostChainKey" =>
     jobj [("completed", true), ("chainKeyLens", Json.arr ((List.replicate (jnat inp "n") (Json.num 32)).toArray)),
@@ -186,13 +184,8 @@ def handle (op : String) (inp : Json) : Json :=
     jobj [("signBefore", true), ("deriveErr", false), ("sharesOpenKey", true), ("chainKeyKept", true), ("signAfter", true),
       ("deriveAgainOk", true)]
   | "findDoernerRefresh" =>
-    jobj [("keyKept", true), ("shareChanged", true), ("signAfter", true), ("chainKeyKept", true), ("chainKeysAgree", true)]
-  | "findScalarImages" =>
-    -- the interpolation theorems need pairwise different NON-ZERO scalar images (`Nodes`); a participant list
-    -- violating that must be refused when the session is created
-    let xs := (jids inp "ids").map idScalar
-    let admissible := xs.all (· != 0) && xs.eraseDups.length == xs.length
-    if admissible then jobj [("keygen", "completed"), ("sign", "completed")] else jobj [("keygen", "refused at start")]
+    -- (a Doerner refresh draws a NEW chain key: documented behaviour, not judged)
+    jobj [("keyKept", true), ("shareChanged", true), ("signAfter", true), ("chainKeysAgree", true)]
   | _ => jobj [("error", "unknown op")]
 
 end Mps.Drv.Alg
